@@ -1526,6 +1526,8 @@ def _mutable_value(v):
         name = f.id if isinstance(f, ast.Name) else f.attr if isinstance(f, ast.Attribute) else ''
         if name in IMMUTABLE_MAKERS:
             return None
+        if name == 'type' and len(v.args) == 1 and not v.keywords:
+            return None                 # type(x): the class of x, nothing is created
         return 'object created by %s(...)' % U(f)
     return None
 
